@@ -1344,12 +1344,17 @@ accepted generated program by driver op `C07.prog`:
     STATICALLY KNOWN LEGAL KEYS: every split argument is a map literal with
     legal keys (`staticLegalKeys`; lemma `fork_keys_static`). Map calls over
     run-time maps of callables without file-typed outputs carry no condition;
-  * NO REFERENCE IS COMPOSED INTO AN UNTYPED MAP (`umapPipe`, §13): a binding into
-    a type containing the untyped `map` is reference-free, or a bare reference to
-    an output of a stage that is not map-called with static keys, or a bare
-    reference to an input of the top pipeline.  This stands in for what the model
-    does NOT model: `MakePipelineCallGraph` composes bindings across pipeline
-    boundaries and refuses references inside untyped maps (N1, F-C07-UMAP).)
+  * NO REFERENCE IS COMPOSED INTO AN UNTYPED MAP (`umapPipe`, §13): at every
+    position of type untyped `map` of a destination the bound expression is
+    reference-free, or a bare reference whose COMPOSED form is still a reference
+    or a run-time merge: an output of a stage, an output of a nested pipeline
+    whose return binding is one (recursively), an input of the top pipeline, an
+    input of a nested pipeline that every call binds that way; map-mode calls only
+    with keys that are run-time values in every call.  This stands in for what
+    the model does NOT model: `MakePipelineCallGraph` composes bindings across
+    pipeline boundaries and refuses references inside untyped maps (N1,
+    F-C07-UMAP); its adequacy is tied per run (every real refusal of a generated
+    program must have `progOk = false`).)
 
 For every program `P` (pipeline definitions) with top-level call `top` that the
 compiler's rules accept – `validTop`, `validPipelineU` of every definition,
@@ -1390,6 +1395,31 @@ theorem program_sound_partial (P : Prog) (O : Oracle) (top : CallStm) (n : Nat)
           .ok ({ self := [], calls := [(top.id, top.sig sh)] }, { self := [], calls := [(top.id, out)] }) ∧
         valid (top.sig sh).whole out = true) :=
   runProgram_sound P O top n hO hP hn
+
+/-- THE SAME WITH THE REFUSAL AS AN OUTCOME (bonus round): for every program that
+satisfies the hypotheses WITHOUT the one about composed bindings (`progOkCore`),
+handing it to the run time has exactly three possible outcomes – it is refused
+when it is invoked (by design: a reference inside an untyped map), or the run
+stops at a null `disabled` value (by design), or it runs to the end and the
+top-level outputs are valid.  It never fails otherwise.  (`refusedAtInvoke` is
+decided by `umapPipe`, see `Outcome`.) -/
+theorem program_outcomes_partial (P : Prog) (O : Oracle) (top : CallStm) (n : Nat)
+    (hO : OracleOk P top O) (hP : progOkCore P top = true) (hn : fits P n top.callee = true) :
+    invokeAndRun P O n top = .refusedAtInvoke ∨
+    invokeAndRun P O n top = .ran .nullDisabled ∨
+    ∃ sh out, checkStm emptyEnv top = some sh ∧
+      invokeAndRun P O n top =
+        .ran (.ok ({ self := [], calls := [(top.id, top.sig sh)] }, { self := [], calls := [(top.id, out)] })) ∧
+      valid (top.sig sh).whole out = true := by
+  by_cases hu : (P.pipes.all fun p => umapPipe P top.callee.name p) = true
+  · have hfull : progOk P top = true := by
+      simp only [progOk, progOkCore] at hP ⊢
+      simp only [hP, hu, Bool.and_self]
+    obtain ⟨sh, hchk, h⟩ := runProgram_sound P O top n hO hfull hn
+    rcases h with hnd | ⟨out, hr, hv⟩
+    · exact Or.inr (Or.inl (by simp [invokeAndRun, hu, hnd]))
+    · exact Or.inr (Or.inr ⟨sh, out, hchk, by simp [invokeAndRun, hu, hr], hv⟩)
+  · exact Or.inl (by simp [invokeAndRun, hu])
 
 /-- the statement of rounds 5–6, for programs without `disabled` modifiers
 (`noDisabled`, decidable): the checked run SUCCEEDS and the top-level outputs
@@ -1598,9 +1628,15 @@ second, type-directed resolver resolves.  Repaired in the code (db7ffe5,
 harness/c07_merge.go in Tier A); with STATICALLY known forks the merge is
 expanded to a map literal of references, which the resolver refuses inside an
 untyped map by design (known finding F-C07-UMAP).  The model does not model the
-composition; `progOk` now EXCLUDES (conservatively, `umapPipe`) every binding
-into a type containing the untyped `map` whose composed form can be such a
-literal – this program among them. -/
+composition; `progOk` EXCLUDES (`umapPipe`) every binding into a position of
+type untyped `map` whose composed form can be such a literal.  Since the bonus
+round `umapPipe` follows the composition as far as it can be decided per
+program: position by position (`umapT`), inputs of nested pipelines through ALL
+their call sites (`selfSafeIn`), outputs of nested pipelines through their return
+bindings (`pipeOutSafe`), and a map-mode call is admitted when its keys are
+run-time values in every call of its pipeline (`runtimeKeys`) – so the audit's
+program is inside the theorem again (`n1_program_inside_after_repair`), and its
+variant with literal forks is the refusal (`n1_static_forks_refused_witness`). -/
 private abbrev n1Kwhat : Bytes := [0x77]
 private abbrev n1Kres : Bytes := [0x72]
 private abbrev n1Kxs : Bytes := [0x78]
@@ -1631,20 +1667,86 @@ private abbrev n1Oracle : Oracle := fun name ins =>
   if name == n1NGEN then .obj [(n1Kres, .arr [.obj [([0x6B], .num (.int 1))], .obj [([0x6C], .num (.int 2))]])]
   else .obj [(n1Kres, (ins.lookup n1Kwhat).getD .null)]
 
-/-- NEGATIVE WITNESS for the model (not for the theorem): every compile-time rule
-and every hypothesis of rounds 5–7 holds (`okPipe` of both pipelines, `validTop`,
-`okStm` of the top-level call, `fits`), the model's checked run succeeds – and
-the only thing that now keeps the program out of `program_sound_partial` is the
-hypothesis about composed bindings (`umapPipe`: `what = split INNER.r` binds an
-output of a nested PIPELINE to an untyped map). -/
-theorem n1_program_outside_model :
-    n1Prog.pipes.all (okPipe n1Prog) = true ∧ validTop n1Top = true ∧
-    (match checkStm emptyEnv n1Top with | some sh => okStm n1Prog emptyEnv n1Top sh | none => false) = true ∧
-    fits n1Prog 3 n1Top.callee = true ∧
+/-- BONUS ROUND: the audit's program is INSIDE `program_sound_partial` again.  Its
+inner map call forks over `self.xs`, which every call of `INNER` binds to (a split
+of) an output of a singly-called stage: the keys are only known at run time
+(`runtimeKeys`), the composed binding is a MERGE, which `TopNode.resolveMerge`
+resolves for an untyped-map destination since 2cc08f5 (harness/c07_merge.go: the
+run-time-fork shapes complete in Tier A, and the model's `progOk` must agree). -/
+theorem n1_program_inside_after_repair :
+    progOk n1Prog n1Top = true ∧ fits n1Prog 3 n1Top.callee = true ∧
     (runProgram n1Prog n1Oracle 3 n1Top).map (fun s => s.2.calls) =
+      .ok [(n1NP, .obj [(n1Kres, .arr [.obj [([0x6B], .num (.int 1))], .obj [([0x6C], .num (.int 2))]])])] :=
+  ⟨by decide, by decide, rfl⟩
+
+/-- the same program with the forks of `INNER` given as a LITERAL
+(`xs = split [{"k": 1}, {"l": 2}]`): the keys of the inner map call are known
+when the program is invoked, the composed binding is a map literal of references,
+and the real resolver REFUSES it by design ("reference … cannot be bound inside an
+untyped map", known finding F-C07-UMAP; replayed by harness/c07_merge.go).
+NEGATIVE WITNESS for the model: every compile-time rule and every other
+hypothesis holds and the model's checked run succeeds – only `umapPipe` keeps the
+program out of the theorem; it is the model's (conservative) stand-in for that
+refusal. -/
+theorem n1_static_forks_refused_witness :
+    let pP' : Pipeline := { n1PP with calls := [
+      { id := n1NGEN, callee := n1StGEN, binds := [], wild := none, mods := noMods },
+      { id := n1NINNER, callee := n1PINNER.callee,
+        binds := [(n1Kxs, .split (.arr (.cons (.map false (.cons [0x6B] (.int 1) .nil))
+          (.cons (.map false (.cons [0x6C] (.int 2) .nil)) .nil))))], wild := none, mods := noMods },
+      { id := n1NCONS, callee := n1StCONS, binds := [(n1Kwhat, .split (.call n1NINNER [n1Kres]))], wild := none, mods := noMods }] }
+    let prog' : Prog := { pipes := [n1PINNER, pP'] }
+    let top' : CallStm := { n1Top with callee := pP'.callee }
+    prog'.pipes.all (okPipe prog') = true ∧ validTop top' = true ∧
+    (match checkStm emptyEnv top' with | some sh => okStm prog' emptyEnv top' sh | none => false) = true ∧
+    fits prog' 3 top'.callee = true ∧
+    (runProgram prog' n1Oracle 3 top').map (fun s => s.2.calls) =
       .ok [(n1NP, .obj [(n1Kres, .arr [.obj [([0x6B], .num (.int 1))], .obj [([0x6C], .num (.int 2))]])])] ∧
-    umapPipe n1Prog true n1PP = false ∧ progOk n1Prog n1Top = false :=
+    umapPipe prog' n1NP pP' = false ∧ progOk prog' top' = false :=
   ⟨by decide, by decide, by decide, by decide, rfl, by decide, by decide⟩
+
+/-- non-vacuity of `program_outcomes_partial`: the three outcomes occur – the audit's
+program runs to the end, its variant with literal forks is refused at invocation,
+and the program of `disabled_null_witness` stops at the null `disabled` value -/
+example :
+    let pP' : Pipeline := { n1PP with calls := [
+      { id := n1NGEN, callee := n1StGEN, binds := [], wild := none, mods := noMods },
+      { id := n1NINNER, callee := n1PINNER.callee,
+        binds := [(n1Kxs, .split (.arr (.cons (.map false (.cons [0x6B] (.int 1) .nil))
+          (.cons (.map false (.cons [0x6C] (.int 2) .nil)) .nil))))], wild := none, mods := noMods },
+      { id := n1NCONS, callee := n1StCONS, binds := [(n1Kwhat, .split (.call n1NINNER [n1Kres]))], wild := none, mods := noMods }] }
+    progOkCore { pipes := [n1PINNER, pP'] } { n1Top with callee := pP'.callee } = true ∧
+    (match invokeAndRun { pipes := [n1PINNER, pP'] } n1Oracle 3 { n1Top with callee := pP'.callee } with
+      | .refusedAtInvoke => true | _ => false) = true ∧
+    progOkCore n1Prog n1Top = true ∧
+    (match invokeAndRun n1Prog n1Oracle 3 n1Top with | .ran (.ok _) => true | _ => false) = true ∧
+    progOkCore { pipes := [pQ kb] } (topQ kb .null) = true ∧
+    (match invokeAndRun { pipes := [pQ kb] } oracleF 2 (topQ kb .null) with | .ran .nullDisabled => true | _ => false) = true :=
+  ⟨by decide, by decide, by decide, by decide, by decide, by decide⟩
+
+/-- OPEN GAP between the model and the code (known finding F-C07-SPLITMERGE, a
+genuine defect): the same program with a TYPED consumer, `in map<int> what`,
+`map call CONS(what = split INNER.r)`, satisfies EVERY hypothesis and the model's
+run succeeds – the real `InvokePipeline` fails with "map call generates a nested
+map of map<int>".  Analysis: `SplitExp.FindTypedRefs` rebuilds the type of the
+split collection from the parameter type with `AddDim(t, exp.CallMode())`, but
+`SplitExp.CallMode()` is the mode of what lies BELOW the split (here: the map-mode
+merge inside `INNER`), not the array mode of the split itself; with an untyped
+`map` parameter the same call builds `map<map>` and goes on.  A one-line repair
+(use the split's own mode) broke the untyped shape and was withdrawn; no
+hypothesis of `program_sound_partial` excludes the program. -/
+theorem splitmerge_gap_witness :
+    let cons' : Callee := { n1StCONS with params := [(n1Kwhat, n1TMI)], outs := .cons n1Kres n1TMI .nil }
+    let pP' : Pipeline := { n1PP with outs := .cons n1Kres (.arr n1TMI) .nil, calls := [
+      { id := n1NGEN, callee := n1StGEN, binds := [], wild := none, mods := noMods },
+      { id := n1NINNER, callee := n1PINNER.callee, binds := [(n1Kxs, .split (.call n1NGEN [n1Kres]))], wild := none, mods := noMods },
+      { id := n1NCONS, callee := cons', binds := [(n1Kwhat, .split (.call n1NINNER [n1Kres]))], wild := none, mods := noMods }] }
+    let prog' : Prog := { pipes := [n1PINNER, pP'] }
+    let top' : CallStm := { n1Top with callee := pP'.callee }
+    progOk prog' top' = true ∧ fits prog' 3 top'.callee = true ∧
+    (runProgram prog' n1Oracle 3 top').map (fun s => s.2.calls) =
+      .ok [(n1NP, .obj [(n1Kres, .arr [.obj [([0x6B], .num (.int 1))], .obj [([0x6C], .num (.int 2))]])])] :=
+  ⟨by decide, by decide, rfl⟩
 
 /-- the same consumer bound to an output of a STAGE (`what = split GEN.r`, which the
 real `Path` resolves since ffee4be) stays inside the theorem -/
